@@ -57,6 +57,13 @@ def run(ctx, prefixes):
         {"h": [act("headers_open", 1, n=1, pad=1), act("cont", 1), act("headers_open", 3, n=1, pad=0), act("cont", 3), act("data", 1, 100, es=True)]},
         {"h": [act("headers", 1, pad=1), act("prio", 3), act("push", 1, n=2), act("ping", 0, n=1), act("headers_open", 3, n=1, pad=1, es=True), act("cont", 3),
                act("rst", 1, n=2), act("ping", 0, n=2), act("goaway")]},
+        # a complete message larger than the window, then RST_STREAM on the same stream (RFC 7540 8.1: a server that has answered
+        # in full stops the request body with RST_STREAM(NO_ERROR)) while part of it is held for the receiver's window: what
+        # was sent before the reset is delivered before the reset (the stream's FIFO), with and without END_STREAM
+        {"h": [act("headers", 1), act("data", 1, 40000), act("data", 1, 40000, es=True), act("rst", 1, n=2),
+               act("ctl", 0, t="WU", v=65535), act("ctl", 1, t="WU", v=65535)]},
+        {"h": [act("headers", 1), act("headers", 3), act("data", 3, 40000), act("data", 3, 30000), act("headers", 3, es=True), act("rst", 3, n=8),
+               act("data", 1, 100, es=True), act("ctl", 0, t="WU", v=65535), act("ctl", 3, t="WU", v=65535)]},
         # a SETTINGS change makes the window of a stream negative; frames that are not flow-controlled still go through
         {"h": [act("headers", 1), act("data", 1, 40000), act("ctl", 0, t="SI", v=100), act("rst", 1, n=8)]},
         {"h": [act("headers", 1), act("data", 1, 40000), act("headers", 3), act("data", 3, 20000), act("ctl", 0, t="SI", v=1),
